@@ -169,9 +169,48 @@ class Laws:
         if any(not np.array_equal(x, y) for x, y in zip(before, leaves(stacked))):
             self.viol("add_element_does_not_modify_input", {"desc": desc})
 
-    def equality(self, tree, desc):
+    def cross_dtype_near_misses(self, desc):
+        """Pairs of *JAX* leaves of different dtypes whose values differ only by what a 32/16-bit promotion would lose
+        (int32 2**24+1 vs float32 2**24, uint32 2**32-1 vs int32 -1, int32 2049 vs float16 2048 ...): equal shape but not
+        equal elements, so the helper must say False; and cross-dtype pairs that really are element-wise equal (True)."""
+        import jax.numpy as jnp
+
+        pt, rng = self.pt, self.rng
+        k = int(rng.integers(0, 6))
+        big = 16777217 + 2 * int(rng.integers(0, 1000))
+        pairs = [
+            (jnp.asarray([big, 5], jnp.int32), jnp.asarray([big, 5], jnp.int32).astype(jnp.float32)),
+            (jnp.asarray([2**32 - 1 - k], jnp.uint32), jnp.asarray([-1 - k], jnp.int32)),
+            (jnp.asarray([2049 + 2 * k, 1], jnp.int32), jnp.asarray([2049 + 2 * k, 1], jnp.int32).astype(jnp.float16)),
+            (jnp.asarray([255 - k], jnp.uint8), jnp.asarray([-1 - k], jnp.int8)),
+            (jnp.asarray([3 + k, 7], jnp.int32), jnp.asarray([3 + k, 7], jnp.float32)),          # really equal
+            (jnp.asarray([True, False]), jnp.asarray([1, 0], jnp.int8)),                          # really equal
+            (jnp.asarray([0.1], jnp.float32), jnp.asarray([0.1], jnp.float16)),                   # 0.1 differs between the two
+        ]
+        wrap = [lambda x: {"a": x}, lambda x: [x, jnp.zeros((2,), jnp.int32)], lambda x: (x,)][int(rng.integers(0, 3))]
+        for a, b in pairs:
+            A_, B_ = np.asarray(a), np.asarray(b)
+            oracle = bool(A_.shape == B_.shape and np.all(A_.astype(object) == B_.astype(object)))  # exact Python arithmetic
+            self.ev("eq_matches_oracle")
+            self.rep.count("eq_variant_cross_dtype_jax")
+            try:
+                r1, r2 = pt.is_equal_pytree(wrap(a), wrap(b)), pt.is_equal_pytree(wrap(b), wrap(a))
+            except Exception as e:
+                self.viol("is_equal_raises", {"error": repr(e)[:200], "variant": "cross_dtype_jax"}, qualifier="cross_dtype_jax")
+                continue
+            if r1 != r2:
+                self.viol("is_equal_symmetric", {"variant": "cross_dtype_jax", "a": [str(a.dtype), A_.tolist()], "b": [str(b.dtype), B_.tolist()]})
+            if r1 != oracle:
+                self.viol("is_equal_iff_leaves_equal", {"variant": "cross_dtype_jax", "got": r1, "oracle": oracle, "a": [str(a.dtype), A_.tolist()], "b": [str(b.dtype), B_.tolist()], "desc": desc}, qualifier="cross_dtype_jax")
+
+    def equality(self, tree, desc, as_jax=False):
         pt = self.pt
         rng = self.rng
+        if as_jax:
+            # the same laws on JAX-array leaves (the helper may take another code path for them); 64-bit variants are
+            # narrowed by jnp.asarray, the oracle below judges the arrays that are really passed
+            tree = to_jnp(tree)
+            self.rep.count("eq_trees_with_jax_leaves")
         variants = [("identical", _copy(tree), True)]
         lv = leaves(tree)
         if lv:
@@ -189,6 +228,8 @@ class Laws:
                 self.viol("is_equal_reflexive", {"desc": desc})
         except Exception as e:
             self.viol("is_equal_raises", {"error": repr(e)[:200], "desc": desc, "variant": "self"})
+        if as_jax:
+            variants = [(tag, to_jnp(other), None if tag.startswith("dtype") else expect) for tag, other, expect in variants]
         for tag, other, expect in variants:
             oracle = np_equal_trees(tree, other)
             if expect is not None and oracle != expect:
@@ -298,6 +339,10 @@ def run_shard(shard: Dict[str, Any], rep: Report) -> None:
             rep.digests.add(digest(trees[0]))
             L.stack_slice_add(trees, desc)
             L.equality(build(rng, struct), desc)
+            if n % 2 == 0:
+                L.equality(build(rng, struct), desc, as_jax=True)
+            if n % 5 == 0:
+                L.cross_dtype_near_misses(desc)
             if len(rep.samples) < 2:
                 rep.sample(desc)
     else:
